@@ -217,7 +217,10 @@ def roundtrip(mon, rec, rng, d, U):
     extra = None
     if kind in ("npz", "npzc", "hdf5") and rng.random() < 0.5:
         extra = {"arr_0" if kind != "hdf5" else "o%d" % j: gen_array(rng, "npy") for j in range(int(rng.integers(1, 3)))}
-    stem = str(rng.choice(["sig", "a.b.c", "utt.wav.x", "UPPER", "x-1"]))
+    # (names with a dollar sign or a tilde are names like any other: VFTAKE and VFSPK are set in this process's environment)
+    os.environ.setdefault("VFTAKE", "7")
+    os.environ.setdefault("VFSPK", "spk1")
+    stem = str(rng.choice(["sig", "a.b.c", "utt.wav.x", "UPPER", "x-1", "take$VFTAKE", "${VFSPK}_utt", "~take", "100%"]))
     sub = os.path.join(d, str(rng.choice(["p", "dir.npy", "d.wav"])))
     os.makedirs(sub, exist_ok=True)
     path = os.path.join(sub, stem + SUFFIX[kind])
